@@ -38,6 +38,15 @@ example : Link (fun _ _ => true)
     { (default : Cert) with subject := 7, version := 3, bcValid := true, isCA := true, keyUsage := 36, pkAlgKnown := true } :=
   ⟨rfl, by decide⟩
 
+/-- The signature budget of `buildChains` (regenerated comparison and constant): the `n`-th call of
+`CheckSignatureFrom` within one `Verify` is refused exactly when `n > 100`, i.e. 100 calls are allowed, as the
+comment on `maxChainSignatureChecks` says. -/
+theorem signature_budget (n : Int) : Gen.sigBudgetExceeded n = true ↔ 100 < n := by
+  unfold Gen.sigBudgetExceeded Gen.maxChainSignatureChecks
+  simp
+
+example : Gen.sigBudgetExceeded 100 = false ∧ Gen.sigBudgetExceeded 101 = true := by decide
+
 /-! ## Soundness -/
 
 /-- **admit_sound.** If `ValidateChain` returns a path `p` then: every submitted string parsed
